@@ -12,6 +12,10 @@ from . import coqlit as L
 from .core import Prop, rp_import
 from .execside import ExecSide
 from .sides import Sides, Spec
+from .relay import Relay
+
+RELAY_RULE = Relay.rule
+RELAY_TRUSTED = Relay.trusted
 
 COMPS = ['tsched', 'tin', 'a0in', 'ain', 'asched', 'aexec', 'aout', 'a0out', 'tout']
 CNAME = dict(tsched='CTSched', tin='CTIn', a0in='CA0In', ain='CAIn', asched='CASched', aexec='CAExec',
@@ -441,6 +445,11 @@ class C05Pipe(Prop):
                     mean_tasks=round(sum(sizes) / max(1, len(sizes)), 2))
 
 
+RELAY_C05 = ['forwarded_at_most_once', 'exactly_one_place', 'no_forward_after_final', 'register_relays_all',
+             'unregister_fails_backlog', 'seen_and_workers_scheduled_here', 'no_wait_for_registered', 'linearizable']
+RELAY_VO = ['Relay/Oracle.vo', 'Relay/Proofs.vo', 'Relay/History.vo', 'Relay/Frame.vo', 'Relay/OracleProofs.vo']
+
+
 class C05(Sides, ExecSide, C05Pipe):
     exec_sel = ['handed_on_once', 'not_collected_and_canceled', 'outcome_attached', 'exit_code_truthful']
     exec_n = (100, 2000)
@@ -450,14 +459,21 @@ class C05(Sides, ExecSide, C05Pipe):
                   # the tmgr scheduler's entry points called from its three threads at once (the C12 interleaving
                   # cases): every submitted task is forwarded once or waiting, and no thread gets stuck
                   Spec('tsched', 'c12', ['lin_terminates', 'lin_exactly_once'],
-                       only=lambda c: isinstance(c, dict) and 'inter' in c)]
+                       only=lambda c: isinstance(c, dict) and 'inter' in c),
+                  # raptor tasks at the agent scheduler: forwarded to a raptor master, kept in the backlog until one
+                  # registers, failed when it unregisters, canceled in the backlog -- handed on exactly once
+                  # (harness/relay.py: real work / _schedule_incoming / control_cb, RP.Relay.Model)
+                  Spec('relay', 'relay', RELAY_C05)]
     exec_total = len(C05Pipe.clauses) + len(exec_sel)
     clauses = (C05Pipe.clauses + ['exec:' + c for c in exec_sel] + side_specs[0].clause_names()
-               + side_specs[1].clause_names())
-    extra_targets = C05Pipe.extra_targets + ['States/Oracle.vo', 'TmgrSched/Oracle.vo', 'TmgrSched/Lin.vo']
-    model_targets = C05Pipe.model_targets + ['States/Oracle.vo', 'TmgrSched/Oracle.vo', 'TmgrSched/Lin.vo']
+               + side_specs[1].clause_names() + side_specs[2].clause_names())
+    extra_targets = C05Pipe.extra_targets + ['States/Oracle.vo', 'TmgrSched/Oracle.vo', 'TmgrSched/Lin.vo'] + RELAY_VO
+    model_targets = C05Pipe.model_targets + ['States/Oracle.vo', 'TmgrSched/Oracle.vo', 'TmgrSched/Lin.vo',
+                                             'Relay/Oracle.vo']
     rule = (C05Pipe.rule + '; ' + ExecSide.exec_rule + '; client side: histories of notification batches over 1-4 '
-            'tasks with duplicates, reordering, gaps and contradictory finals (as for C06)')
+            'tasks with duplicates, reordering, gaps and contradictory finals (as for C06); ' + RELAY_RULE)
+    trusted = C05Pipe.trusted + RELAY_TRUSTED
+    corr_name = C05Pipe.corr_name + '; ' + Relay.corr_name
 
 
 PROP = C05()
